@@ -372,7 +372,7 @@ func c16Prepare(c *Ctx, shape string, n int) (*c16Base, error) {
 	return b, nil
 }
 
-const c16Deadline = 25 * time.Second
+const c16Deadline = 45 * time.Second
 
 // c16Tree remembers what is on disk at the target so that consecutive cases over the same
 // (shape, damage) reuse it; consumers that write into the target (healers) invalidate it.
@@ -532,10 +532,9 @@ func c16Scale(n int) int {
 	}
 }
 
-// c16Abstract prints the model parameters of the scenario: (cap, pre, startFail, files, consumer, ctx0, mayCancel)
+// c16Abstract prints the scenario as a term of type Exec.C16.scen:
+// mkscen cap pre startfail files consumer ctx0 maycancel
 func c16Abstract(b *c16Base, s c16Scn) string {
-	// pre-pass wounds (dirs and symlinks are all sent before any file is looked at)
-	pre := 0
 	leafDirs := 0
 	for _, e := range b.signed.Entries {
 		if e.Kind == "dir" {
@@ -551,6 +550,10 @@ func c16Abstract(b *c16Base, s c16Scn) string {
 			}
 		}
 	}
+	healer := strings.HasPrefix(s.Consumer, "healer")
+	// dir/symlink pass: every wound of it is sent before any file is looked at
+	pre := 0
+	preErr := false
 	switch s.Damage {
 	case "dirs-missing", "dirs-asfile":
 		pre = leafDirs
@@ -559,33 +562,60 @@ func c16Abstract(b *c16Base, s c16Scn) string {
 	case "everything":
 		pre = leafDirs + b.nLinks
 	case "root-missing":
-		pre = b.nDirs + b.nLinks
+		if !healer { // the healer creates the root first
+			pre = b.nDirs + b.nLinks
+		}
+	case "parent-asfile":
+		pre, preErr = 1, b.nDirs > 0 // the directory itself is a wound, the first entry below it is ENOTDIR
+		if b.nDirs == 0 {
+			pre = 0
+		}
 	}
-	// files: kind per file in container order, then scaled keeping first / last
+	var preItems []string
+	for i := 0; i < c16Scale(pre); i++ {
+		preItems = append(preItems, "PWound")
+	}
+	if preErr {
+		preItems = append(preItems, "PErr")
+	}
+	// per-file behaviour of doOne, container order
 	kind := func(i int) string {
 		blocks := b.blocksPer[i]
 		first, last := i == 0, i == b.nFiles-1
-		heal := func() string { // a healthy file: one marker per block
-			return fmt.Sprintf("(fdata %d false FMNone)", blocks)
+		hb := blocks
+		if hb > 3 {
+			hb = 3
+		}
+		healthy := fmt.Sprintf("(fdata %d false FMNone)", hb)
+		bad := func(short bool) string {
+			h := blocks - 1
+			if h < 0 {
+				h = 0
+			}
+			if h > 2 { // the relay sees "several" markers before the bad one
+				h = 2
+			}
+			mid := "FMNone"
+			if short || blocks == 0 {
+				mid = "FMShort"
+			}
+			return fmt.Sprintf("(fdata %d true %s)", h, mid)
 		}
 		switch s.Damage {
 		case "files-flip", "everything":
-			if blocks == 0 {
-				return "(fdata 1 true FMShort)" // empty signed file got one byte: a bad block and a size wound
+			return bad(false)
+		case "files-short":
+			if blocks == 1 && b.sig.Container.Files[i].Size == 1 {
+				return "(fdata 0 false FMShort)" // truncated to nothing: only the size wound
 			}
-			return fmt.Sprintf("(fdata %d true FMNone)", blocks)
+			return bad(true)
+		case "files-long":
+			return bad(true)
 		case "files-missing", "files-asdir", "root-missing":
 			return "fwhole"
-		case "files-short":
-			if blocks == 0 {
-				return "(fdata 1 true FMShort)"
-			}
-			return fmt.Sprintf("(fdata %d true FMShort)", blocks)
-		case "files-long":
-			return fmt.Sprintf("(fdata %d true FMShort)", blocks+boolInt(blocks == 0))
 		case "last-flip":
 			if last {
-				return fmt.Sprintf("(fdata %d true FMNone)", blocks+boolInt(blocks == 0))
+				return bad(false)
 			}
 		case "last-missing":
 			if last {
@@ -593,34 +623,36 @@ func c16Abstract(b *c16Base, s c16Scn) string {
 			}
 		case "last-short":
 			if last {
-				return fmt.Sprintf("(fdata %d true FMShort)", blocks+boolInt(blocks == 0))
+				if blocks == 1 && b.sig.Container.Files[i].Size == 1 {
+					return "(fdata 0 false FMShort)"
+				}
+				return bad(true)
 			}
 		case "first-flip":
 			if first {
-				return fmt.Sprintf("(fdata %d true FMNone)", blocks+boolInt(blocks == 0))
+				return bad(false)
 			}
 		}
-		return heal()
+		return healthy
 	}
 	var files []string
 	n := b.nFiles
 	m := c16Scale(n)
-	for j := 0; j < m; j++ {
-		// model file j stands for Go file: first, ..., last
+	for j := 0; j < m; j++ { // model file j stands for Go file: first, some middle ones, last
 		i := j
 		if j == m-1 {
 			i = n - 1
-		} else if j > 0 {
-			i = 1 + (j-1)%(n-2+boolInt(n <= 2))
-			if i >= n-1 {
-				i = n - 2
-			}
+		} else if i > n-2 {
+			i = n - 2
+		}
+		if i < 0 {
+			i = 0
 		}
 		files = append(files, kind(i))
 	}
 	cons := map[string]string{"guardian": "CKGuardian", "writer": "CKQuiet", "printer": "CKQuiet", "printer-slow": "CKQuiet",
-		"writer-badpath": "(CKFailOnBad 1)", "healer": "(CKHealer None)", "healer-noarchive": "(CKHealer (Some 1))", "healer-corrupt": "(CKHealer (Some 1))"}[s.Consumer]
-	return fmt.Sprintf("(mkparams 2 %d %s %s %s %s %s)", c16Scale(pre), lib.CoqBool(s.Damage == "root-missing"),
+		"writer-badpath": "CKFailOnBad", "healer": "(CKHealer None)", "healer-noarchive": "(CKHealer (Some 1))", "healer-corrupt": "(CKHealer (Some 1))"}[s.Consumer]
+	return fmt.Sprintf("(mkscen 2 %s %s %s %s %s %s)", lib.CoqList(preItems), lib.CoqBool(s.Damage == "root-missing" && !healer),
 		lib.CoqList(files), cons, lib.CoqBool(s.Cancel == "before"), lib.CoqBool(s.Cancel != "none" && s.Cancel != "before"))
 }
 
@@ -731,7 +763,7 @@ func runC16(c *Ctx) error {
 	healers := []string{"healer", "healer-noarchive", "healer-corrupt"}
 	cancels := []string{"none", "none", "before", "timer", "progress", "message", "lastprogress"}
 	procs := []int{1, 4, 16}
-	trees := c.N(28, 420)
+	trees := c.N(20, 420)
 	for t := 0; t < trees && !hung; t++ {
 		tr := r.Fork()
 		sh := shapes[tr.Intn(len(shapes))]
